@@ -87,6 +87,31 @@ def run(ctx):
             T = S[:1024] + gen.rand_seq(rng, alpha, rng.choice([50, 300, 500]))
             T2 = S[:1024] + gen.mutate(rng, S[1024:], alpha, 0.3, 0.15)
             recs = [S, T, S] + ([T2] if rng.random() < 0.5 else []) + ([gen.mutate(rng, S, alpha, 0.2, 0.05)] if rng.random() < 0.5 else [])
+        if rng.random() < 0.12:
+            # distance extremes: sequences over disjoint letter classes are at distance exactly len(shorter) (capped at 1024), which puts
+            # the entries of the distance matrix on 255/256/257, 511/512, 767/768, 1023/1024 -- the widths an integer narrowing would cut at
+            if kind == "protein":
+                a1, a2 = "LMIVKR", "FYWCGHP"
+            elif kind == "rna":
+                a1, a2 = "AC", "GU"
+            else:
+                a1, a2 = "AC", "GT"
+            if rng.random() < 0.5:
+                a1, a2 = a2, a1
+            L = rng.choice([255, 256, 256, 257, 511, 512, 512, 768, 1024, 1100])
+            X = gen.rand_seq(rng, a1, L)
+            recs = [X, X]
+            for _ in range(rng.choice([1, 2, 3, 5])):
+                recs.append(gen.rand_seq(rng, a2, L + rng.choice([0, 1, 7, 40, 200])))
+            for _ in range(rng.choice([0, 1, 2, 3])):
+                recs.append(gen.mutate(rng, X, a1, rng.choice([0.02, 0.1]), rng.choice([0.02, 0.06])))
+            for _ in range(rng.choice([0, 1, 2])):
+                # chimeras: half of X, half foreign
+                cut = rng.randrange(L // 4, 3 * L // 4)
+                recs.append(gen.rand_seq(rng, a2, cut) + X[cut:] if rng.random() < 0.5 else X[:cut] + gen.rand_seq(rng, a2, L - cut + rng.choice([0, 30])))
+            if rng.random() < 0.4:
+                recs.append(X)
+            ctx.count("distance_extreme_sets")
         rng.shuffle(recs)
         recs = [("d%d" % k, s) for k, s in enumerate(recs)]
         if not premise_ok(recs, kind):
